@@ -122,8 +122,15 @@ def _run_item(kind, r):
         out = doc.render(lib_prefix=r["lib_prefix"], include_version=r["include_version"])
         # the very same document object rendered again: what was rendered before must not matter
         again = doc.render(lib_prefix=r["lib_prefix"], include_version=r["include_version"])
+        ok = again["html"] == out["html"]
+        # ... and after the content was changed in place (no append() on the document) the next rendering shows the change
+        tags_ = [x for c in doc._content for x in ([c] if isinstance(c, ht.Tag) else [])]
+        if tags_ and tags_[0].name not in ("script", "style", "head", "html"):
+            tags_[0].append("CHANGED-IN-PLACE")
+            third = doc.render(lib_prefix=r["lib_prefix"], include_version=r["include_version"])["html"]
+            ok = ok and "CHANGED-IN-PLACE" in third
         return {"html": _d(out["html"]), "deps": [d.name + "@" + str(d.version) for d in out["dependencies"]],
-                "same_when_rendered_again": again["html"] == out["html"]}
+                "same_when_rendered_again": ok}
     if kind == "shared":
         # two tags built from the same child list / attribute map; changing one must not change what the other renders
         shared_kids = ht.TagList(*[gen.build(c) for c in r["kids"]])
@@ -134,7 +141,23 @@ def _run_item(kind, r):
         a.append("appended", ht.span("s"))
         a.add_class("added")
         a.attrs["data-a"] = "1"
-        return {"html": _d(str(a) + str(b)), "same_when_rendered_again": (str(b), str(shared_kids)) == before}
+        ok = (str(b), str(shared_kids)) == before
+        # dependencies built without script / stylesheet / meta each have their own (empty) lists
+        d1, d2 = ht.HTMLDependency("plain-a", "1.0"), ht.HTMLDependency("plain-b", "1.0")
+        hc_other = ht.head_content(ht.tags.title("other"))
+        d1.script.append({"src": "leak.js"})
+        d1.stylesheet.append({"href": "leak.css"})
+        d1.meta.append({"name": "leak", "content": "x"})
+        ok = ok and d2.script == [] and d2.stylesheet == [] and d2.meta == [] and hc_other.script == [] and "leak" not in str(ht.HTMLDocument(ht.div(d2, hc_other)).render()["html"])
+        # head_content: the name and the content belong to the payload as it was when head_content() was called; a later,
+        # equal payload is not affected by what happened to the first one afterwards
+        t1 = ht.tags.title("original")
+        hc1 = ht.head_content(t1)
+        t1.append(" then changed")
+        hc2 = ht.head_content(ht.tags.title("original"))
+        out2 = ht.HTMLDocument(ht.div(hc2)).render()["html"]
+        ok = ok and "<title>original</title>" in out2 and "then changed" not in out2
+        return {"html": _d(str(a) + str(b)), "same_when_rendered_again": ok}
     if kind == "textdoc":
         deps = [gen.build(x) for x in r["deps"]]
         sers = [d.serialize_to_script_json(indent=2).get_html_string() for d in deps]
